@@ -31,6 +31,8 @@ def args_of(c, trackfile):
             i = a.index("-I"); del a[i:i + 2]
         if x == "--InitialDistZoom":
             i = a.index("--InitialDistZoom"); del a[i:i + 2]
+        if x in ("-N", "-T"):
+            i = a.index(x); del a[i:i + 2]
     a += XTRA[c.get("x", 0)]
     if c.get("mod"):     # deterministic RF phase modulation (the modulation record is flushed in the output block)
         a += ["--RFPhaseModAmplitude", 0.01, "--RFPhaseModFrequency", 130000.0]
@@ -42,7 +44,9 @@ STARTFILE = {}
 XTRA = [[], ["--CutoffFreq", 0], ["--CutoffFreq", 5e10], ["--InterpolationPoints", 3], ["--InterpolateClamped", "true"], ["--derivation", 3], ["--RoundPadding", "false", "--padding", 2.3],
         ["--FPType", 1], ["--alpha1", 1e-4], ["--WallConductivity", 1.4e6], ["-I", 1e-3, 0, 2e-3],
         # a dilute phase space (peak density a hundred times below the usual one): what is stored must not depend on the magnitude of the values either
-        ["--InitialDistZoom", 3, "--PhaseSpaceSize", 24]]
+        ["--InitialDistZoom", 3, "--PhaseSpaceSize", 24],
+        # a step count per period that is not a power of two (time stamps k/10 are not exact in binary)
+        ["-N", 10, "-T", 1.5]]
 
 
 def phys_key(c):
@@ -186,6 +190,12 @@ def run(res, tier):
             if not isinstance(ref.get(name), dict):
                 continue
             for t, h in m.items():
+                if t not in ref[name]:
+                    # the reference writes every step: a record stamped with a time the reference does not have carries a stamp that depends on what was written
+                    res.violate("C12/time-stamp-depends-on-observation/%s" % ("phase-space-axis" if name == "/PhaseSpace/data" else "time-axis"), case,
+                                "%s holds a record stamped t=%r; the run that writes every step has no record with that stamp (nearest %r)" % (name, t, min(ref[name], key=lambda x: abs(x - t)) if ref[name] else None),
+                                replay=dict(cmd=r["cmd"], reference=" ".join(map(str, args_of(refs[k], trackfile)))))
+                    break
                 if t in ref[name] and ref[name][t] != h:
                     what = "final-phase-space" if (name == "/PhaseSpace/data" and t == max(m)) else "common-record"
                     if name == "/PhaseSpace/data" and t == 0 and c["save"] == 0 and c["renorm"] > 0 and len(m) > 1:
